@@ -395,9 +395,24 @@ func (s *Syncer) addPeer(p *Peer) error {
 	}
 
 	s.mu.Lock()
+	defer s.mu.Unlock()
+	if p.Inbound {
+		// allowConnect checked the limit before the handshake; inbound
+		// connections that were being established at the same time all
+		// passed that check, so it is enforced again at the point of
+		// insertion
+		var in int
+		for _, other := range s.peers {
+			if other.Inbound {
+				in++
+			}
+		}
+		if in >= s.config.MaxInboundPeers {
+			return errors.New("too many inbound peers")
+		}
+	}
 	s.peers[p.t.Addr] = p
 	verifEvent("s.addpeer", s.verifID(), s.verifPeers(p.Inbound))
-	s.mu.Unlock()
 	return nil
 }
 
